@@ -87,7 +87,7 @@ def check_one(case, rec):
                 elif not math.isnan(sd):
                     raise Violation("stdpc_n-negative-variance", f"stdpc_n({counts}) = {sd!r} though varpc_n = {fvar!r} < 0")
                 if case.get("samples", False):
-                    sample = [f"s{i}" for i, c in enumerate(counts) for _ in range(c)]
+                    sample = [label(i, "prefix" if N % 2 else "suffix_digits") for i, c in enumerate(counts) for _ in range(c)]
                     sample = sample[::2] + sample[1::2]
                     ps = float(call("pc", pyrepseq.pc, sample))
                     if not close(ps, v, 1e-12):
@@ -113,19 +113,32 @@ def check_one(case, rec):
                 raise Violation("varpc-biased-float", f"N={N} p={w}: E[varpc_n] = {float(e_var_float)!r} != {float(true_var)!r}")
 
 
+def label(i, style):
+    """Category labels: ints, equal-width strings, or a prefix chain of growing width ('CA', 'CAS', 'CASS', ...) so that
+    any width-truncating conversion of one sample makes distinct categories collide."""
+    if style == "int":
+        return i * 10 + 1
+    if style == "prefix":
+        return "CASSLGQAYEQYF"[: i + 2]
+    if style == "suffix_digits":
+        return "c1" + "0" * i
+    return f"cat{i}"
+
+
 def check_two(case, rec):
     N1, N2, wp, wq = case["N1"], case["N2"], case["p"], case["q"]
     K = len(wp)
     p, q = probs(wp), probs(wq)
-    rec.note(case, K >= 2 and (len(set(wp)) > 1 or len(set(wq)) > 1), [f"K={K}"])
+    style = case.get("labels", "int")
+    rec.note(case, K >= 2 and (len(set(wp)) > 1 or len(set(wq)) > 1), [f"K={K}", f"labels={style}"])
     want = sum(a * b for a, b in zip(p, q))
     e = Fraction(0)
     for c1 in O.compositions(N1, K):
         pr1 = multinomial_prob(c1, p)
-        s1 = [i * 10 + 1 for i, c in enumerate(c1) for _ in range(c)]
+        s1 = [label(i, style) for i, c in enumerate(c1) for _ in range(c)]
         for c2 in O.compositions(N2, K):
             pr2 = multinomial_prob(c2, q)
-            s2 = [i * 10 + 1 for i, c in enumerate(c2) for _ in range(c)]
+            s2 = [label(i, style) for i, c in enumerate(c2) for _ in range(c)]
             v = float(call("pc2", pyrepseq.pc, s1, s2))
             exact = Fraction(sum(a * b for a, b in zip(c1, c2)), N1 * N2)
             if not close(v, exact, 1e-12):
@@ -150,7 +163,8 @@ def two_case(draw, tier="quick"):
     top = 6 if K < 3 else 5
     return {"N1": draw(st.integers(1, top)), "N2": draw(st.integers(1, top)),
             "p": draw(st.lists(st.integers(1, 12), min_size=K, max_size=K)),
-            "q": draw(st.lists(st.integers(1, 12), min_size=K, max_size=K))}
+            "q": draw(st.lists(st.integers(1, 12), min_size=K, max_size=K)),
+            "labels": draw(st.sampled_from(["int", "prefix", "prefix", "suffix_digits", "equal_width"]))}
 
 
 def enum_grid(tier):
